@@ -22,10 +22,6 @@ def setup():
     os.environ.setdefault("OMP_NUM_THREADS", "1")
     os.environ.setdefault("MKL_NUM_THREADS", "1")
     sys.dont_write_bytecode = True
-    # ninja lives next to the interpreter; torch.utils.cpp_extension needs it on PATH
-    bindir = os.path.dirname(sys.executable)
-    if bindir not in os.environ.get("PATH", "").split(os.pathsep):
-        os.environ["PATH"] = bindir + os.pathsep + os.environ.get("PATH", "")
     if REPO in sys.path:
         sys.path.remove(REPO)
     sys.path.insert(0, REPO)
@@ -44,11 +40,16 @@ def setup():
     where = os.path.realpath(q.__file__)
     if not where.startswith(REPO + os.sep):
         raise RuntimeError(f"HARNESS-ERROR optimum.quanto imported from {where}, expected under {REPO}")
-    # Never let the harness write build output into the tree under test: the C++ extension, if it is
-    # ever requested without vlib.cppext having redirected it, is built under /verif/.build.
+    # The compiled unpack kernel: use the library built by vlib.cppext for the CURRENT sources if it exists (direct import, no
+    # build, no lock); otherwise leave the extension unbuildable (ninja is not on PATH in workers), so that quanto warns and
+    # falls back to its python kernel exactly as it does in the repository's own test runs. Nothing is ever built into the
+    # tree under test, and no worker ever waits on a build lock.
     try:
         from optimum.quanto.library.ext.cpp import ext as _ext
 
-        _ext.build_directory = os.path.join(VERIF, ".build", "unredirected")
+        _ext.build_directory = os.path.join(VERIF, ".build", "never-built")
+        from . import cppext
+
+        cppext.attach(build=False)
     except Exception:
         pass
